@@ -409,11 +409,9 @@ mem_cmpn(const void *buf1, const size_t buf1_size,
 
 static inline int
 mem_cmpi(const void *buf1, const void *buf2, const size_t size) {
-#ifndef HAVE_STRNCASECMP
 	register uint8_t tm1, tm2;
 	register const uint8_t *buf1_byte, *buf2_byte;
 	register const uint8_t *buf1_max;
-#endif
 
 	if (0 == size || buf1 == buf2)
 		return (0);
@@ -421,9 +419,7 @@ mem_cmpi(const void *buf1, const void *buf2, const size_t size) {
 		return (-127);
 	if (NULL == buf2)
 		return (127);
-#ifdef HAVE_STRNCASECMP
-	return (strncasecmp((const char*)buf1, (const char*)buf2, size));
-#else
+	/* Not strncasecmp(): it stop on first 0x00, bufs are not c strings. */
 	buf1_byte = ((const uint8_t*)buf1);
 	buf1_max = (buf1_byte + size);
 	buf2_byte = ((const uint8_t*)buf2);
@@ -444,7 +440,6 @@ mem_cmpi(const void *buf1, const void *buf2, const size_t size) {
 	}
 
 	return (0);
-#endif
 }
 
 static inline int
